@@ -513,6 +513,58 @@ def resume_oracle(run, c, K, recs, rrecs, scn):
                 return
 
 
+# ------------------------------------------------------------------------------------ bypass table (regenerated from the binary)
+BIAS_CONFIGS = [
+    ("harmonic", ["centers 1.0", "forceConstant 1.0"]),
+    ("harmonicWalls", ["lowerWalls 0.5", "upperWalls 1.5", "forceConstant 1.0"]),
+    ("linear", ["centers 1.0", "forceConstant 1.0"]),
+    ("histogram", []),
+    ("abf", ["fullSamples 10"]),
+    ("metadynamics", ["hillWeight 0.1", "hillWidth 1.0", "newHillFrequency 10"]),
+    ("abmd", ["forceConstant 1.0", "stoppingValue 1.5"]),
+    ("opes_metad", ["barrier 5", "newHillFrequency 10"]),
+    ("alb", ["centers 1.0", "updateFrequency 10"]),
+]
+EXT_COLVAR = ["colvar {", "  name v", "  width 0.25", "  lowerBoundary 0", "  upperBoundary 2", "  extendedLagrangian on", "  extendedFluctuation 0.5",
+              "  extendedTimeConstant 16.0", "  extendedTemp 300.0", "  distanceZ {", "    main { atomNumbers 1 }", "    ref { dummyAtom (0,0,0) }",
+              "    axis (0,0,1)", "  }", "}"]
+
+
+def dump_bypass_table(sim, d):
+    """[(bias type as the code names it, can bypass, bypasses by default)] for every bias kind that can be defined on an extended variable"""
+    L = ["natoms 1", "dt 1.0", "temperature 300", "samestep 0", "prefix", "xnew", "config EOF"] + EXT_COLVAR + ["EOF"]
+    for (kw, body) in BIAS_CONFIGS:
+        L += ["config EOF", "%s {" % kw, "  colvars v"] + ["  " + b for b in body] + ["}", "EOF"]
+    L.append("biastable")
+    open(os.path.join(d, "bt.scn"), "w").write("\n".join(L) + "\n")
+    rc, o, e = V.sh([sim, "bt.scn"], cwd=d)
+    tab = []
+    for l in o.split("\n"):
+        w = l.split()
+        if len(w) == 4 and w[0] == "BT":
+            tab.append((w[1], int(w[2]), int(w[3])))
+    return sorted(set(tab))
+
+
+def write_gen_bypass(tab):
+    os.makedirs(os.path.join(V.COQ, "Gen"), exist_ok=True)
+    p_ = os.path.join(V.COQ, "Gen", "GenBypass.v")
+    txt = "(* GENERATED by props/C17/check.py from the freshly built binary (bias kinds defined on an extendedLagrangian variable); do not edit *)\n"
+    txt += "From Coq Require Import List String Bool. Import ListNotations. Local Open Scope string_scope.\n"
+    txt += "(* (bias type, bypassExtendedLagrangian available, enabled by default) *)\n"
+    txt += "Definition bypass_table : list (string * bool * bool) := [\n"
+    txt += ";\n".join('  ("%s", %s, %s)' % (n_, "true" if a else "false", "true" if b else "false") for (n_, a, b) in tab)
+    txt += "\n].\n"
+    old = open(p_).read() if os.path.exists(p_) else None
+    if old != txt:
+        open(p_, "w").write(txt)
+
+
+def presetup():
+    sim = V.build_prog("c17sim", PROGS["c17sim"])
+    write_gen_bypass(dump_bypass_table(sim, V.scratch("C17pre")))
+
+
 # ------------------------------------------------------------------------------------ driver
 def setup():
     V.extract_model("C17", EXTRACT, DRIVER, ["ocaml/fops.ml"])
